@@ -60,6 +60,9 @@ Sensitivity (quick tier, seed 1, scratch copies of tornado/iostream.py; all caug
       (``rewrite`` op: the data object of an earlier write - bytes, bytearray, 1-D 'B' memoryview, cast or
       sliced view - is written AGAIN to the same stream, behind a partial send of itself or after it
       completed, or to a second stream; payload = the object's bytes at call time)
+  M15 write(): buffer-full test ``>`` -> ``>=`` (a write filling the buffer to EXACTLY max_write_buffer_size is
+      refused)  -> every seed: part "limit", C12.refused_below_limit (84 enumerated cases: L in {100,2048,4096}
+      x p pending in {0,1,L/2,L-1,L} x next write of L-p-1 / L-p / L-p+1 bytes x bytes/memoryview)
   (M7 append: ``new_buf = is_memview or len(b) >= T`` -> ``len(b) >= T`` survives: memoryview entries are
    always > T bytes long, so the mutant is equivalent.)
 """
@@ -479,10 +482,26 @@ def run_sweep_case(ctx, case):
     ctx.note(case, labels, False)
 
 
-PARTS = {"main": run_case, "sweep": run_sweep_case}
+# ---- deterministic family: exact max_write_buffer_size.  With p bytes pending, a write of L - p - 1 and of
+# exactly L - p bytes must be accepted, one of L - p + 1 refused without side effects (judged by the model).
+def limit_cases():
+    for L in (100, 2048, 4096):
+        for p_ in sorted({0, 1, L // 2, L - 1, L}):
+            for delta in (-1, 0, 1):
+                size = L - p_ + delta
+                if size < 0:
+                    continue
+                for kind in ("bytes", "mv"):
+                    ops = ([("write", "bytes", p_, 3)] if p_ else []) + [("write", kind, size, 5), ("write", "bytes", 1, 7),
+                                                                       ("grant", "rel", 0), ("write", kind, size, 9)]
+                    yield {"mwbs": L, "credit0": 0, "ops": ops}
+
+
+PARTS = {"main": run_case, "sweep": run_sweep_case, "limit": run_case}
 
 
 def main(ctx):
     ctx.run_replays(PARTS)
+    ctx.enumerate(limit_cases(), run_case, name="limit")
     ctx.explore(case_s, run_case, ctx.n(1500, 100000), name="main")
     ctx.enumerate(sweep_cases(6 if ctx.thorough else 5), run_sweep_case, name="sweep")
